@@ -201,7 +201,9 @@ structure Built {α} (hash : Key → Nat) (vlen : α → Nat) (so : Nat) (kvs : 
   recs : f.recs = layout vlen (so + headerSize) kvs
   eod : f.endofdata = endPos vlen (so + headerSize) kvs
   start : f.startoffset = so
-  index : f.index = f.recs.map (·.pos)
+  index : f.indexTC = (indexArray (f.recs.map (·.pos))).1.tc ∧
+    f.indexLen = (indexArray (f.recs.map (·.pos))).1.items.length ∧
+    f.indexBytes = (indexArray (f.recs.map (·.pos))).1.toBytes
   tables : ∀ b, b < 256 → ∃ T, f.tables[b]? = some T ∧ T.length = 2 * (bucketEntries hash f.recs b).length ∧
     Inv T (bucketEntries hash f.recs b)
 
@@ -225,7 +227,7 @@ theorem build_spec {α} (hash : Key → Nat) (vlen : α → Nat) (so : Nat) (kvs
         rcases buildTable_spec _ (bucket_nz hash _ b hpos) (bucket_nodup hash _ b hsorted) with ⟨T, hT, _⟩
         exact ⟨T, hT⟩) with ⟨tables, h1, h2, h3⟩
   rw [h1]
-  refine ⟨_, rfl, ⟨rfl, rfl, rfl, rfl, ?_⟩⟩
+  refine ⟨_, rfl, ⟨rfl, rfl, rfl, ⟨rfl, rfl, rfl⟩, ?_⟩⟩
   intro b hb
   simp only
   have hb' : b < (List.range 256).length := by simpa using hb
